@@ -1098,8 +1098,8 @@ class Exec:
         if target_hint is not None and isinstance(node, (ast.List, ast.ListComp)):
             return m(node, frame, target_hint=target_hint)
         v = m(node, frame)
-        if isinstance(v, SLazy):
-            v = self.resolve_lazy(v)   # lazily typed values are never observed unresolved
+        if isinstance(v, SLazy) and not v.defer:
+            v = self.resolve_lazy(v)   # lazily typed record fields are never observed unresolved
         return v
 
     def ex_Constant(self, node, frame):
